@@ -1829,7 +1829,9 @@ int hostlist_delete(hostlist_t hl, const char *hosts)
         seterrno_ret(EINVAL, 0);
 
     while ((hostname = hostlist_pop(hltmp)) != NULL) {
-        n += hostlist_delete_host(hl, hostname);
+        /* a host may be listed more than once: delete every occurrence */
+        while (hostlist_delete_host(hl, hostname))
+            n++;
         free(hostname);
     }
     hostlist_destroy(hltmp);
